@@ -122,7 +122,7 @@ def run(replay=None):
             eid += 1
             ev = query_event(o)
             ev['id'] = eid
-            events.append(ev)
+            events.append(ev if len(events) < 4000 else tlc.pack(ev))     # later events are kept as JSON text (memory)
             info[eid] = (text, type(o).__name__)
             slot_cov[type(o).__name__] = slot_cov.get(type(o).__name__, 0) + 1
         # trees DERIVED from an already queried tree (copy-with-changes, substitutions, rewrites)
@@ -138,13 +138,15 @@ def run(replay=None):
                         eid += 1
                         ev = query_event(o)
                         ev['id'] = eid
-                        events.append(ev)
+                        events.append(ev if len(events) < 4000 else tlc.pack(ev))
                         info[eid] = ('%s of %s' % (name, text), type(o).__name__)
                         slot_cov['derived'] = slot_cov.get('derived', 0) + 1
     rep.cov['nodes_by_class'] = slot_cov
     # canaries
     canaries = []
     for ev in events:
+        if not isinstance(ev, dict):
+            break
         if ev['ext'][0] == 'ok' and ev['ext'][1] and len(canaries) < 1:
             c = copy.deepcopy(ev); c['id'] = CANARY_BASE + 1; c['ext'] = ['ok', []]; canaries.append(c)
         if ev['iter'][0] == 'ok' and len(ev['iter'][1]) >= 3 and len(canaries) == 1:
@@ -162,6 +164,6 @@ def run(replay=None):
         text, cls = info[i]
         rep.violation('%s|%s|%s' % (clause, cls, text), '%s wrong on a %s node of %r' % (clause, cls, text),
                       {'text': text, 'node_class': cls, 'clause': clause})
-    for e in events[:: max(1, len(events) // 6)]:
+    for e in [x for x in events if isinstance(x, dict)][:: 600]:
         rep.sample({'text': info[e['id']][0], 'node': info[e['id']][1], 'ext': e['ext'], 'cself': e['cself']})
     return rep.finish()
